@@ -26,7 +26,7 @@ Fixpoint cost (e : expr) : nat * nat :=
   | EVar _ | ERand | EInt _ | ELit _ | ETrue => (0, 0)
   | EIsInst e _ | EIsSub e _ | ELen e | ECallPred _ e | EAttrLet _ e _ => (K e, K e)
   | EIndex e i => (1 + K e + K i, 1 + K e + K i)
-  | EMod a b | EEq a b => (K a + K b, K a + K b)
+  | EMod a b | EEq a b | EIs a b => (K a + K b, K a + K b)
   | EFirst e | EFirstValue e => (1 + K e, 1 + K e)
   | ENot e => (snd (cost e), fst (cost e))
   | EAnd a b => (fst (cost a) + fst (cost b), Nat.max (snd (cost a)) (fst (cost a) + snd (cost b)))
@@ -92,6 +92,11 @@ Section CostSound.
       specialize (IHe1 _ _ _ E1). specialize (IHe2 _ _ _ E2).
       pose proof (pick_le_K v1 e1). pose proof (pick_le_K v2 e2). rewrite reads_log. cbn [is_read].
       unfold pick; cbn [cost fst snd]. fold (K e1). fold (K e2). destruct (truthy _); lia.
+    - (* EIs *) destruct (eval r preds e1 s) as [[v1|x] s1] eqn:E1; [|discriminate].
+      destruct (eval r preds e2 s1) as [[v2|x] s2] eqn:E2; [|discriminate]. inversion H; subst.
+      specialize (IHe1 _ _ _ E1). specialize (IHe2 _ _ _ E2).
+      pose proof (pick_le_K v1 e1). pose proof (pick_le_K v2 e2).
+      unfold pick; cbn [cost fst snd]. fold (K e1). fold (K e2). destruct (truthy _); lia.
     - (* ENot *) destruct (eval r preds e s) as [[v0|x] s1] eqn:E; [|discriminate]. inversion H; subst.
       specialize (IHe _ _ _ E). unfold pick in *. cbn [cost fst snd truthy].
       assert (Hr : reads (trace (if is_container v0 then log (TBool v0) s1 else s1)) = reads (trace s1)).
@@ -134,6 +139,7 @@ End CostSound.
 Fixpoint bound (h : hint) : nat :=
   match h with
   | HAny | HCls _ | HShallow _ | HLiteral _ | HType _ => 0
+  | HAnnot mh _ => if ignorable mh then 0 else bound mh
   | HUnion hs => (fix sum (l : list hint) : nat := match l with [] => 0 | x :: l' => bound x + sum l' end) hs
   | HCont _ ch => if ignorable ch then 0 else 1 + bound ch
   | HMap _ k v =>
@@ -331,6 +337,45 @@ Section GenCost.
       lia.
   Qed.
 
+  Lemma K_vcode w : forall x, K (vcode w x) = 0.
+  Proof.
+    induction w as [f|n w IH|o|cs|cs|a IHa b IHb|a IHa b IHb|a IHa]; intros x; cbn [vcode];
+      unfold tpl_vale_isattr, tpl_vale_isequal, tpl_vale_isinstance, tpl_vale_issubclass.
+    - reflexivity.
+    - specialize (IH (attr_tmp x n)). unfold K in *. cbn [cost fst snd] in *. lia.
+    - reflexivity.
+    - reflexivity.
+    - reflexivity.
+    - specialize (IHa x). specialize (IHb x). unfold K in *. cbn [cost fst snd] in *. lia.
+    - specialize (IHa x). specialize (IHb x). unfold K in *. cbn [cost fst snd] in *. lia.
+    - specialize (IHa x). unfold K in *. cbn [cost fst snd] in *. lia.
+  Qed.
+
+  Lemma sumK_vcodes vs x : sumK (map (fun w => vcode w x) vs) = 0.
+  Proof. induction vs as [|w vs IH]; [reflexivity|]. cbn [map sumK fold_right]. unfold sumK in IH. rewrite IH, K_vcode. reflexivity. Qed.
+
+  Lemma cost_annot mh vs : cost_ok mh -> cost_ok (HAnnot mh vs).
+  Proof.
+    intros IH pith idx. cbn [gen bound].
+    change (if simple pith then idx else S idx) with (node_i pith idx).
+    change (if simple pith then pith else tpl_assign pith (Pith (S idx))) with (node_assign pith idx).
+    pose proof (K_assign pith idx) as Ha. unfold tpl_annotated_op.
+    destruct (ignorable mh).
+    - destruct (is_ident pith) as [x|].
+      + pose proof (K_join_and (map (fun w => vcode w x) vs)). rewrite sumK_vcodes in H. lia.
+      + pose proof (K_join_and (tpl_annotated_pith (node_assign pith idx) (EVar (Pith (node_i pith idx)))
+                                 :: map (fun w => vcode w (Pith (node_i pith idx))) vs)) as H.
+        cbn [sumK fold_right] in H. pose proof (sumK_vcodes vs (Pith (node_i pith idx))) as Hv. unfold sumK in Hv.
+        rewrite Hv in H.
+        assert (K (tpl_annotated_pith (node_assign pith idx) (EVar (Pith (node_i pith idx)))) = K pith).
+        { unfold tpl_annotated_pith, K in *. cbn [cost fst snd] in *. lia. }
+        lia.
+    - pose proof (K_join_and (gen cf mh (node_assign pith idx) (node_i pith idx)
+                               :: map (fun w => vcode w (Pith (node_i pith idx))) vs)) as H.
+      cbn [sumK fold_right] in H. pose proof (sumK_vcodes vs (Pith (node_i pith idx))) as Hv. unfold sumK in Hv.
+      rewrite Hv in H. pose proof (IH (node_assign pith idx) (node_i pith idx)). lia.
+  Qed.
+
   Theorem gen_cost h : cost_ok h.
   Proof.
     induction h using hint_ind2.
@@ -344,6 +389,7 @@ Section GenCost.
     - now apply cost_tuple.
     - apply cost_literal.
     - apply cost_type.
+    - now apply cost_annot.
   Qed.
 
   (* the number of items read by a whole check is bounded by a function of the hint alone,
